@@ -27,7 +27,12 @@ It1   == {"i1"}
 It2   == {"i1", "i2"}
 It3   == {"i1", "i2", "i3"}
 
-OpsAll   == {"grow", "iter", "view", "xform", "dump", "io"}
+OpsAll   == {"grow", "iter", "view", "xform", "dump", "io", "copy"}
+OpsNoCopy == {"grow", "iter", "view", "xform", "dump", "io"}
+OpsMix   == {"grow", "iter", "view", "xform", "dump", "copy"}
+OpsCopy  == {"copy", "view", "xform"}
+OpsCopyV == {"copy", "view"}
+OpsCopyX == {"copy", "xform"}
 OpsGrow  == {"grow", "dump"}
 OpsIter  == {"iter", "dump"}
 OpsView  == {"view", "xform", "dump"}
@@ -44,6 +49,8 @@ DevQRO      == {"ChargeViewReadOnly"}
 DevScaleQ   == {"ScaleTouchesCharges"}
 DevTrFirst  == {"TranslateFirstOnly"}
 DevCopyW    == {"CopyLosesWeights"}
+DevShare    == {"CopySharesBuffers"}
+DevStack    == {"StackBroadcasts"}
 
 View == sv
 Emit == PrintT(ToJson([from |-> sv, act |-> last', to |-> sv', obs |-> Obs']))
